@@ -86,7 +86,10 @@ def gen(rnd):
             has_ref = True
         secs.append(('watcher', w, items))
     if rnd.random() < .7:
-        secs.append(('env', '', [(v, 'g-' + v) for v in rnd.sample(ENVVARS, rnd.randint(1, 4))]))
+        # values of the [env] section may themselves refer to variables of the daemon's own environment
+        secs.append(('env', '', [(v, 'g-' + v if rnd.random() < .75 else
+                                  'g-' + v + rnd.choice([':$(circus.env.home)', '-((circus.env.HOME))', ':$(CIRCUS.ENV.Path)']))
+                                 for v in rnd.sample(ENVVARS, rnd.randint(1, 4))]))
     used = set()
     for _ in range(rnd.randint(0, 4)):
         pat = rnd.choice([rnd.choice(wnames), 'w*', '*', ','.join(rnd.sample(wnames, min(2, len(wnames)))), 'nomatch',
@@ -147,6 +150,7 @@ def run_case(spec):
             res.violation('C16/watcher-names-differ', 'get_config has %s, the file defines %s' % (sorted(got), sorted(ref)),
                           text=text)
             return res
+        built = {}
         for n in ref:
             g = dict(got[n])
             r = ref[n]
@@ -183,6 +187,7 @@ def run_case(spec):
                 res.obs['watcher_ctor_raised:%s' % type(e).__name__] += 1
                 continue
             res.obs['watchers_built'] += 1
+            built[n] = (wobj, r)
             want_env = dict(OSENV) if r['copy_env'] else {}
             want_env.update(r['env'])
             if r.get('copy_path'):
@@ -199,6 +204,17 @@ def run_case(spec):
                 if getattr(wobj, k) != r[k]:
                     res.violation('C16/watcher-attribute[%s]' % k, 'Watcher %s.%s=%r, file says %r'
                                   % (n, k, getattr(wobj, k), r[k]), text=text)
+        # "hooks.X = name, true" asks to ignore failures of that hook of that watcher -- judged once every watcher of
+        # the file exists (a flag must not travel from one section to another)
+        for n, (wobj, r) in built.items():
+            for hname in ('before_start', 'after_spawn', 'before_spawn', 'after_start'):
+                want = bool(r['hooks'].get(hname, [None, False])[1])
+                have = hname in wobj.ignore_hook_failure
+                res.obs['hook_ignore_flags_compared'] += 1
+                if want != have:
+                    res.violation('C16/hook-ignore-flag[%s]' % ('set-by-another-section' if have else 'lost'),
+                                  'watcher %s: failures of hook %s are %signored, its section says %r'
+                                  % (n, hname, '' if have else 'not ', r['hooks'].get(hname)), text=text)
     finally:
         os.environ.clear()
         os.environ.update(saved)
